@@ -149,7 +149,7 @@ KNOWN_EXC = ['TypeError', 'KeyError', 'ValueError', 'IndexError', 'AttributeErro
 
 EXTRA_EXC = {'StopIteration': 901, 'StopAsyncIteration': 902, 'ArithmeticError': 903, 'ZeroDivisionError': 904,
              'LookupError': 905, 'OSError': 906, 'AssertionError': 907, 'RecursionError': 908, 'UnicodeError': 909,
-             'NotImplementedError': 910, 'BufferError': 911, 'EOFError': 912}
+             'NotImplementedError': 910, 'BufferError': 911, 'EOFError': 912, 'MemoryError': 913}
 EXTRA_BASE = {'GeneratorExit': 901, 'KeyboardInterrupt': 902, 'SystemExit': 903}
 
 
@@ -175,12 +175,19 @@ def s_exc(e):
     return 'B:?' + name
 
 
+def fatal(e):
+    """an exception the harness itself must not swallow (a MemoryError a generated rule raises on purpose is data)"""
+    if isinstance(e, MemoryError):
+        return e.args != ('injected',)
+    return isinstance(e, (KeyboardInterrupt, SystemExit))
+
+
 def run_py(fn, show=str):
     """run fn(), render result or exception token"""
     try:
         return show(fn())
     except BaseException as e:  # noqa
-        if isinstance(e, (KeyboardInterrupt, SystemExit, MemoryError)):
+        if fatal(e):
             raise
         return s_exc(e)
 
